@@ -205,8 +205,22 @@ class Verifier(Stmts):
         info['exec_seconds'] = round(time.time() - t0, 3)
         if info['normal_paths'] == 0 and con.ensures_ and not getattr(con, 'allow_no_normal', False):
             self.vacuity.append((qualname + ":normal-path-reachable", z3.unsat))
-        for k, text in enumerate(con.covers):
-            pass
+        # every clause of the contract yields an obligation name even if no path of that kind exists, so that the set
+        # of names depends on the contract only (the baseline detects vacuous runs, not code changes)
+        have = {ob.name for ob in self.obligations}
+        empty = State()
+        for k, text in enumerate(con.ensures_ + con.on_any_):
+            n = "%s:ensures[%d]" % (qualname, k)
+            if n not in have:
+                self.oblige(empty, z3.BoolVal(True), n, text + " (no normal path)")
+        for k, text in enumerate(con.raises_only_if_):
+            n = "%s:raises_only_if[%d]" % (qualname, k)
+            if n not in have:
+                self.oblige(empty, z3.BoolVal(True), n, text + " (no raising path)")
+        for k, text in enumerate(con.on_raise_ + con.on_any_):
+            n = "%s:on_raise[%d]" % (qualname, k)
+            if n not in have:
+                self.oblige(empty, z3.BoolVal(True), n, text + " (no raising path)")
         self.current = None
         return info
 
